@@ -1,6 +1,7 @@
 package core
 
 import (
+	"regexp"
 	"encoding/json"
 	"fmt"
 	"os"
@@ -10,6 +11,8 @@ import (
 	"strings"
 	"time"
 )
+
+var reKeyIDs = regexp.MustCompile(`'?@[^ .,)\]\[}]*`)
 
 // Verdicts.
 const (
@@ -67,6 +70,7 @@ func (r *Report) Rule(id, text string, floor int) {
 // verdict (violated > undecided > holds): an obligation holds only if it
 // holds on every path class that reaches it.
 func (r *Report) Add(rule, key, pos, verdict, msg string, path []string) {
+	key = reKeyIDs.ReplaceAllString(key, "") // value ids (@frame:tN) are not stable across edits
 	full := rule + " " + key
 	if o, ok := r.byKey[full]; ok {
 		if rank(verdict) > rank(o.Verdict) {
